@@ -50,7 +50,7 @@ def ibspace(isz, extra=32):
     return isz - 128 - extra - 8 if isz > 128 else 0
 
 
-def vlens_for(p):
+def vlens_for(p, tier="quick"):
     """value-length classes of a profile: 0, 1, 4, fills the body -1/0/+1 (1-byte name), fills the block -1/0/+1,
     beyond one block, and a few medium sizes that make several entries compete for the same area."""
     s = {0, 1, 4, 30, 200, 500, 967, 968, 969, 1025, 2000}
@@ -59,6 +59,8 @@ def vlens_for(p):
         s |= {f - 1, f, f + 1}
     if p["ea"]:
         s |= {5000}
+        if tier == "thorough":
+            s |= {65536}          # the largest value the read path accepts (64 KiB)
     return sorted(s)
 
 
@@ -223,10 +225,10 @@ def observe(img, d, ino=None):
 # ---------------------------------------------------------------------------------------------------------------
 # history generation (seeded; inside the closed universe names x vlens x tags of the profile)
 
-def gen_history(rng, pname, nops, front):
+def gen_history(rng, pname, nops, front, tier="quick"):
     p = PROFILES[pname]
     names = list(p["names"])
-    vl = vlens_for(p)
+    vl = vlens_for(p, tier)
     edge = [v for v in vl if v > 4]
     ops = []
     present = set([DATA] if p["inline"] else [])
@@ -454,8 +456,8 @@ def trace_cfg(work, pname, over=None, suffix=""):
 
 MC_RUNS = {
     # (profile, names, vlens, tags, depth, with peer)
-    "quick": [("i256", [1, 2, 3, 4, 5, 6], [0, 1, 4, 67, 68, 69, 500, 967, 968, 969, 2000], [1, 2], 3, False),
-              ("i256ea", [1, 2, 3, 4, 6], [0, 4, 68, 69, 500, 968, 969, 2000], [1, 2], 3, True),
+    "quick": [("i256", [1, 2, 3, 4, 5, 6], [0, 4, 67, 68, 69, 500, 968, 969], [1, 2], 3, False),
+              ("i256ea", [1, 2, 3, 4], [0, 4, 68, 69, 500, 968, 969, 2000], [1, 2], 3, True),
               ("i128", [1, 2, 3, 4, 5], [0, 4, 500, 967, 968, 969], [1], 4, True),
               ("i256inl", [1, 2, 4, 7], [0, 4, 44, 48, 49, 68, 500, 968], [1, 2], 3, False)],
 }
@@ -491,7 +493,7 @@ def model_check(ev, vd, tier, work):
         cfg2 = os.path.join(work, "SIM_%d.cfg" % k)
         consts["MaxOps"] = 12
         T.write_cfg(cfg2, spec="Spec", constants=consts, invariants=["TypeOK"] + INVS)
-        nsim = 300 if tier == "quick" else 3000
+        nsim = 200 if tier == "quick" else 3000
         r = T.tlc(os.path.join(SPEC, "XattrPlace.tla"), cfg2, workers=JOBS, timeout=600, xmx="4g", simulate=nsim, depth=13)
         if r.violated:
             vd.violation("model:" + str(r.violated), "invariant %s violated in XattrPlace simulation (%s)" % (r.violated, label), {"tlc": r.out[-4000:]})
@@ -508,22 +510,34 @@ def strip(lines):
     return [json.dumps({k: v for k, v in ln.items() if k not in ("why", "err")}, separators=(",", ":")) for ln in lines]
 
 
-def nontrivial(lines):
-    """a behaviour is non-trivial when an attribute MOVES between inode body, block and value inode."""
+def moves(lines):
+    """the kinds of relocation a behaviour exercises: 'i>b' = an attribute moves from the inode body to the block, 'b>i',
+    '*>ea' into a value inode, 'ea>*' out of one."""
     where = {}
-    moved = False
+    kinds = set()
     for ln in lines:
         st = ln["st"]
         cur = {}
         for e in st["ibody"]:
-            cur[e[0]] = "ea" if e[3] else "i"
+            cur[e[0]] = ("ea", "i") if e[3] else ("i", "i")
         for e in st["block"]:
-            cur[e[0]] = "ea" if e[3] else "b"
-        for n, w in cur.items():
-            if n in where and where[n] != w:
-                moved = True
+            cur[e[0]] = ("ea", "b") if e[3] else ("b", "b")
+        for n, (w, area) in cur.items():
+            if n in where and where[n] != (w, area):
+                ow, oarea = where[n]
+                if oarea != area:
+                    kinds.add("%s>%s" % (oarea, area))
+                if ow != "ea" and w == "ea":
+                    kinds.add("*>ea")
+                if ow == "ea" and w != "ea":
+                    kinds.add("ea>*")
         where = cur
-    return moved
+    return kinds
+
+
+def nontrivial(lines):
+    """a behaviour is non-trivial when an attribute MOVES between inode body, block and value inode."""
+    return bool(moves(lines))
 
 
 def execute(b, drvbin, env, work, behs, bases):
@@ -562,6 +576,7 @@ def describe(beh, k):
 
 
 CHUNK = 1500
+MAX_REPORT = 3          # confirmed rejections reported per profile
 
 
 def chunks_of(tb, chunk_lines):
@@ -593,7 +608,11 @@ def validate(vd, ev, work, behs, results):
         os.makedirs(wd, exist_ok=True)
         todo = list(range(len(tb)))
         nbad = 0
+        unchecked = 0
         while todo:
+            if nbad >= MAX_REPORT:          # enough evidence for this profile; do not spend a TLC start per further failure
+                unchecked = len(todo)
+                break
             sub = [tb[j] for j in todo]
             res = tracecheck.validate(sub, mod, cfg, wd, chunk_lines=CHUNK, jobs=JOBS, timeout=1200)
             if res["broken"]:
@@ -604,6 +623,8 @@ def validate(vd, ev, work, behs, results):
             ch = chunks_of(sub, CHUNK)
             nxt = []
             for f in res["failures"]:
+                if nbad >= MAX_REPORT:
+                    break
                 ci = int(re.search(r"chunk(\d+)", os.path.basename(f["chunk"])).group(1))
                 bi = f["behaviour"]
                 rej, matched, inv, tail, _ = tracecheck.confirm(sub[bi], mod, cfg, wd)      # re-run alone before reporting
@@ -619,7 +640,10 @@ def validate(vd, ev, work, behs, results):
                         {"behaviour": behs[i], "first_unmatched_line": k, "line": ln, "tlc_tail": tail[-1200:]})
                 nxt += [todo[x] for x in ch[ci] if x > bi]      # not looked at by TLC yet
             todo = sorted(nxt)
-        accepted += len(idxs) - nbad
+        accepted += len(idxs) - nbad - unchecked
+        if unchecked:
+            ev.cov.setdefault("not_validated_after_violations", 0)
+            ev.cov["not_validated_after_violations"] += unchecked
     return accepted
 
 
@@ -678,9 +702,18 @@ def plan(tier, rng):
         n_lib, n_dbg, nops = 1500, 120, 12
     for pname in PROFILES:
         for i in range(n_lib):
-            behs.append(dict(profile=pname, front="lib", persist=i % 2, ops=gen_history(rng, pname, nops if i % 3 else 5, "lib")))
+            behs.append(dict(profile=pname, front="lib", persist=i % 2, ops=gen_history(rng, pname, nops if i % 3 else 5, "lib", tier)))
+        if tier == "thorough":
+            # exhaustive part: every pair of operations over 3 names x the boundary value lengths of the profile (1 tag)
+            p = PROFILES[pname]
+            nm = [1, 2, 4] if not p["inline"] else [1, 4, DATA]
+            vs = [v for v in vlens_for(p, "quick") if v not in (1, 30, 200, 1025)]
+            alpha = [["set", n, v, 1] for n in nm for v in vs if n != DATA or v <= ibspace(p["isz"])] + [["rm", n] for n in nm if n != DATA]
+            for a in alpha:
+                for c in alpha:
+                    behs.append(dict(profile=pname, front="lib", persist=0, ops=[a, c]))
         for i in range(n_dbg):
-            behs.append(dict(profile=pname, front="debugfs", persist=0, ops=gen_history(rng, pname, 6, "debugfs")))
+            behs.append(dict(profile=pname, front="debugfs", persist=0, ops=gen_history(rng, pname, 6, "debugfs", tier)))
     return behs
 
 
@@ -706,11 +739,14 @@ def run(tier):
         results = execute(b, drvbin, env, work, behs, bases)
         ev.cov["execution_wall_s"] = round(time.time() - t1, 1)
         nlines = 0
+        nprob = {}
         for beh, (lines, probs) in zip(behs, results):
             nlines += len(lines)
             for key, what in probs:
-                vd.violation(key, "%s: profile %s front %s ops %s" % (what, beh["profile"], beh["front"], [describe(beh, k) for k in range(len(beh["ops"]))][:14]),
-                             {"behaviour": beh, "problem": what})
+                nprob[key] = nprob.get(key, 0) + 1
+                if nprob[key] <= 5:
+                    vd.violation(key, "%s: profile %s front %s ops %s" % (what, beh["profile"], beh["front"], [describe(beh, k) for k in range(len(beh["ops"]))][:14]),
+                                 {"behaviour": beh, "problem": what})
             if len(lines) != 1 + len([o for o in beh["ops"] if beh["front"] == "lib" or o[0] in ("set", "rm")]) and not probs:
                 die_broken("instrumentation incomplete: %d lines for %d operations" % (len(lines), len(beh["ops"])))
         t2 = time.time()
@@ -720,6 +756,14 @@ def run(tier):
         ev.cov["trace_lines_validated"] = nlines
         ev.cov["traces_validated_against_impl"] = acc
         ev.cov["evaluations"] = len(behs)
+        ev.cov["problems_outside_tlc"] = nprob
+        mv = {}
+        for beh, (lines, probs) in zip(behs, results):
+            for k in moves(lines):
+                mv[k] = mv.get(k, 0) + 1
+        ev.cov["behaviours_by_relocation_kind"] = mv
+        if not all(mv.get(k) for k in ("i>b", "b>i", "*>ea", "ea>*")):
+            die_broken("vacuous run: some relocation kind was never exercised: %s" % mv)
         for beh, (lines, probs) in zip(behs, results):
             if lines and nontrivial(lines):
                 ev.nontrivial(hashlib.sha1(json.dumps([beh["profile"], beh["front"], beh["ops"]]).encode()).hexdigest())
